@@ -60,6 +60,16 @@ impl Api {
             _ => None,
         }
     }
+    /// standalone API: root ref and node count of every register (ids are deterministic: append order)
+    fn zdump(&self) -> Option<String> {
+        match self {
+            Api::Standalone(regs) => {
+                let r = regs.iter().enumerate().filter_map(|(i, z)| z.as_ref().map(|z| format!("{}={}:{}", i, fmt_ref(z.root()), z.node_count()))).collect::<Vec<_>>().join(",");
+                Some(format!("R[{}]", r))
+            }
+            _ => None,
+        }
+    }
 }
 
 fn fam_members(mask: u32, nvars: u32) -> Vec<Vec<u32>> {
@@ -113,7 +123,11 @@ fn new_api(arena: bool) -> Api {
 }
 
 fn emit_dump(ctx: &mut Ctx, api: &Api) {
-    if let Some(d) = api.dump() { ctx.case("dump", &d); ctx.count("dump"); }
+    // `dump`: judged for C07 (well-formedness, handles denote the model trees, canonicity).
+    // `tdump` / `zdump`: the same state compared node for node with the replayed TABLE model
+    // (correspondence of Model/ZddTable.lean itself; owned by neither C06 nor C07).
+    if let Some(d) = api.dump() { ctx.case("dump", &d); ctx.count("dump"); ctx.case("tdump", &d); ctx.count("tdump"); }
+    if let Some(d) = api.zdump() { ctx.case("zdump", &d); ctx.count("zdump"); }
 }
 
 fn fam_op_text(d: usize, members: &[Vec<u32>]) -> String {
@@ -214,7 +228,7 @@ fn sequences(ctx: &mut Ctx, arena: bool, nseq: u64, maxlen: u64) {
                     ctx.count("arena:gc");
                 }
             }
-            if arena { emit_dump(ctx, &api); }
+            emit_dump(ctx, &api);
         }
     }
 }
